@@ -53,7 +53,7 @@ func substPrefix(p, from, to string) (string, bool) {
 
 // downRes: resolver for values inside the callee of cs, given the resolver of the calling function.
 func downRes(outer resolver, cs ssa.CallInstruction) resolver {
-	cal := cs.Common().StaticCallee()
+	cal := calleeOf(cs)
 	args := cs.Common().Args
 	return func(v ssa.Value) string {
 		// a value of the calling function (it reaches the callee's tests through a bound bool parameter,
@@ -95,7 +95,7 @@ func fnOfValue(v ssa.Value) *ssa.Function {
 var boundBool = map[*ssa.Parameter]ssa.Value{}
 
 func bindBoolParams(cs ssa.CallInstruction) func() {
-	cal := cs.Common().StaticCallee()
+	cal := calleeOf(cs)
 	if cal == nil {
 		return func() {}
 	}
@@ -125,7 +125,7 @@ func bindBoolParams(cs ssa.CallInstruction) func() {
 // upMap: string mapper for paths of the function that contains call site cs, expressed in the naming of
 // the callee and then mapped on by inner (the callee's own mapper towards the rule's naming).
 func upMap(cs ssa.CallInstruction, inner func(string) string) func(string) string {
-	cal := cs.Common().StaticCallee()
+	cal := calleeOf(cs)
 	args := cs.Common().Args
 	return func(p string) string {
 		if cal == nil {
@@ -157,7 +157,7 @@ func composeRes(a resolver, then func(string) string) resolver {
 
 // samePkgHelper: the statically called, same-package function with a body (nil otherwise).
 func samePkgHelper(fn *ssa.Function, c ssa.CallInstruction) *ssa.Function {
-	cal := c.Common().StaticCallee()
+	cal := calleeOf(c)
 	if cal == nil || cal == fn || cal.Pkg == nil || cal.Pkg != fn.Pkg || len(cal.Blocks) == 0 {
 		return nil
 	}
@@ -373,7 +373,7 @@ func staticCallers(w *World, fn *ssa.Function) []ssa.CallInstruction {
 	var out []ssa.CallInstruction
 	for _, g := range w.RepoFuncs(fn.Pkg.Pkg.Name()) {
 		instrsOf(g, func(in ssa.Instruction) {
-			if c, ok := in.(ssa.CallInstruction); ok && c.Common().StaticCallee() == fn {
+			if c, ok := in.(ssa.CallInstruction); ok && (c.Common().StaticCallee() == fn || fn.Parent() != nil && c.Common().StaticCallee() == nil && calleeOf(c) == fn) {
 				out = append(out, c)
 			}
 		})
@@ -655,7 +655,7 @@ func topFrame(fn *ssa.Function) *frame {
 func frameFor(top *ssa.Function, chain []ssa.CallInstruction) *frame {
 	fr := topFrame(top)
 	for _, cs := range chain {
-		h := cs.Common().StaticCallee()
+		h := calleeOf(cs)
 		cx := &dctx{fn: h, res: downRes(fr.cx.res, cs), parent: fr.cx, site: cs, depth: fr.cx.depth + 1, key: fr.cx.key + "/" + fmt.Sprintf("%p", cs) + ":" + h.Name()}
 		fr = mkFrame(cx, nil, fr, cs)
 	}
@@ -716,7 +716,7 @@ func (fr *frame) feasible(e Edge) bool {
 				if ev == nil || !sameVal(f.x, ev) {
 					continue
 				}
-				h := c.Common().StaticCallee()
+				h := calleeOf(c)
 				ei := errIndex(h)
 				if ei < 0 || ei >= len(hr.Results) {
 					continue
